@@ -10,7 +10,7 @@ from ..report import Finding, RuleResult
 from .common import calls_in, is_param, kwarg, source_params, step_calls
 from .reg import ALIASES
 
-STORAGE_MARKS = (".values", ".coefficients", ".tonumpy()")
+STORAGE_MARKS = (".values", ".coefficients", ".tonumpy()", "sortable_proxy(")
 SIMPLE_DISPATCH = "numpoly.dispatch.simple_dispatch"
 NONCOMMUTATIVE = {
     "subtract", "true_divide", "divide", "floor_divide", "remainder", "mod", "divmod", "power",
@@ -40,11 +40,32 @@ def _touches_storage(expr: ast.AST) -> bool:
     return any(mark in text for mark in STORAGE_MARKS)
 
 
+def _storage_delegates(ctx, module, expanded, into):
+    """numpy callables (short names) applied to coefficient storage inside a provenance tree."""
+    for call in calls_in(expanded):
+        cname = ctx.dotted(module, call.func)
+        if cname == SIMPLE_DISPATCH:
+            nf = kwarg(call, "numpy_func") or (call.args[0] if call.args else None)
+            dn = ctx.dotted(module, nf) if nf is not None else None
+            if dn and dn.startswith("numpy."):
+                into.setdefault(dn.split(".")[-1], call)
+            continue
+        if cname is None or not cname.startswith("numpy."):
+            continue
+        short = cname.split(".")[-1]
+        if short in HELPERS:
+            continue
+        operands = list(call.args) + [kw.value for kw in call.keywords if kw.arg != "out"]
+        if any(_touches_storage(op) for op in operands):
+            into.setdefault(short, call)
+
+
 def run_delegate(ctx) -> RuleResult:
     result = RuleResult(
         "R-DELEGATE",
-        "a registered wrapper that hands polynomial storage to numpy callables hands it to the numpy "
-        "function it is registered for (simple_dispatch wrappers: numpy_func is the namesake)",
+        "a registered wrapper whose *result* (return value, values stored into the output, out= targets) is "
+        "computed by numpy callables applied to coefficient storage uses the numpy function it is registered "
+        "for among them (simple_dispatch wrappers: numpy_func is the namesake)",
     )
     seen = set()
     for reg in ctx.regs:
@@ -62,35 +83,29 @@ def run_delegate(ctx) -> RuleResult:
             paths = []
         for path in paths:
             for step in path:
-                for call in step_calls(step):
-                    cname = ctx.dotted(module, call.func)
-                    if cname == SIMPLE_DISPATCH:
-                        nf = kwarg(call, "numpy_func") or (call.args[0] if call.args else None)
-                        dn = ctx.dotted(module, nf) if nf is not None else None
-                        if dn and dn.startswith("numpy."):
-                            delegates.setdefault(dn.split(".")[-1], call)
-                        continue
-                    if cname is None or not cname.startswith("numpy."):
-                        continue
-                    short = cname.split(".")[-1]
-                    if short in HELPERS:
-                        continue
-                    expanded = step.expand(call)
-                    operands = list(expanded.args) + [kw.value for kw in expanded.keywords]
-                    if any(_touches_storage(op) for op in operands):
-                        delegates.setdefault(short, call)
+                if step.kind == "return" and step.node.value is not None:
+                    _storage_delegates(ctx, module, step.expand(step.node.value), delegates)
+                elif step.kind == "stmt" and isinstance(step.node, (ast.Assign, ast.AugAssign)):
+                    targets = step.node.targets if isinstance(step.node, ast.Assign) else [step.node.target]
+                    if any(isinstance(t, ast.Subscript) for t in targets):
+                        _storage_delegates(ctx, module, step.expand(step.node.value), delegates)
+                if step.kind in ("stmt", "return", "assume"):
+                    for call in step_calls(step):
+                        if kwarg(call, "out") is not None:
+                            _storage_delegates(ctx, module, step.expand(call), delegates)
         if not delegates:
             continue
         ok = bool(set(delegates) & names)
         where = module.loc(func)
-        result.ob(f"{func.name} (registered for {sorted(names)}) delegates to {sorted(delegates)}", ok, where, "")
+        result.ob(f"{func.name} (registered for {sorted(names)}) computes its result with {sorted(delegates)}", ok, where, "")
         if not ok:
             first = next(iter(delegates.values()))
             result.add(Finding(
-                "R-DELEGATE", module, func.name, first,
-                f"{func.name} is registered for numpy.{'/'.join(sorted(names))} but applies "
-                f"numpy.{'/'.join(sorted(delegates))} to the coefficient storage and never the function it mirrors"))
-    result.floor = 45
+                "R-DELEGATE", module, func.name, func,
+                f"{func.name} is registered for numpy.{'/'.join(sorted(names))} but its result is computed by "
+                f"numpy.{'/'.join(sorted(delegates))} applied to the coefficient storage, never by the function it mirrors",
+                construct=f"{func.name}: delegates {sorted(delegates)}"))
+    result.floor = 40
     return result
 
 
@@ -198,6 +213,52 @@ def run_fwd(ctx) -> RuleResult:
                         f"parameter '{pname}' (also a parameter of the numpy function) is "
                         f"{'deleted' if pname in dels else 'never used'}: the result cannot depend on it",
                         construct=f"def {func.name}: unused {pname}"))
+        # the namesake numpy call receives every shared value/shape parameter
+        if np_params is not None:
+            names = set()
+            for reg in ctx.regs:
+                if reg.func is func:
+                    names |= _short_targets(reg)
+            shared = [p for p in params if p in np_params and p not in NOT_VALUE]
+            if shared and names:
+                try:
+                    paths = ctx.paths(module, func, max_iter=1)
+                except AnalysisError:
+                    paths = []
+                verdict = {}
+                for path in paths:
+                    texts = []
+                    first_call = None
+                    for step in path:
+                        for call in step_calls(step):
+                            cname = ctx.dotted(module, call.func) or ""
+                            if (cname.startswith("numpy.") and cname.split(".")[-1] in names) or cname == SIMPLE_DISPATCH:
+                                first_call = first_call or (step, call, cname)
+                                texts.append(U(step.expand(call)))
+                                for kw in call.keywords:
+                                    if kw.arg is None and isinstance(kw.value, ast.Name):
+                                        for _target, stored in step.muts.get(kw.value.id, ()):
+                                            texts.append(U(_target) + U(stored))
+                    if first_call is None:
+                        continue
+                    last = path[-1]
+                    fact_text = " ".join(U(node) for node, _pol in last.fact_items())
+                    for pname in shared[1:]:
+                        needle = PARAM + pname
+                        ok = any(needle in t for t in texts) or needle in fact_text
+                        entry = verdict.setdefault(pname, [True, None])
+                        if not ok and entry[0]:
+                            verdict[pname] = [False, (first_call, path)]
+                for pname, (ok, info) in verdict.items():
+                    result.ob(f"{qual}: '{pname}' reaches the call of the mirrored numpy function on every path", ok,
+                              module.loc(func), "")
+                    if not ok:
+                        (step, call, cname), path = info
+                        result.add(Finding(
+                            "R-FWD", module, qual, call,
+                            f"parameter '{pname}' neither reaches the call of {cname} nor decides a branch on this "
+                            f"path: the result is computed as if '{pname}' had its default",
+                            derivation=describe_path(path)))
         # cross-wiring: k=<other parameter> where k is itself a parameter of this function
         pset = set(params)
         for call in calls_in(func):
